@@ -734,6 +734,41 @@ func runRoutable(fields []string) string {
 			oracles = append(oracles, "after registering and deleting neighbours Reverse answers "+lkResult(r2, t2))
 		}
 	}
+	// the pattern is replaced by Update: every entry point then answers with the NEW route (also where the matcher reaches
+	// the route through a precomputed sub-node), and inside a write transaction that registers the pattern under another
+	// method the instance is routed by the transaction's own lookups before anything is committed
+	if nr, err := f.Update("GET", pat, nopHandler); err != nil {
+		oracles = append(oracles, "Update of the registered pattern "+hx(pat)+" failed: "+err.Error())
+	} else {
+		got = nr
+		if ru, cu, tu := f.Lookup(foxWriter{newRecWriter()}, newReq("GET", host, path)); ru != nr || tu {
+			oracles = append(oracles, "after Update the instance of "+hx(pat)+" is not routed to the new route: "+lkResult(ru, tu))
+		} else if cu != nil {
+			cu.Close()
+		}
+		if r2, t2 := f.Reverse("GET", host, path); r2 != nr || t2 {
+			oracles = append(oracles, "after Update Reverse does not answer with the new route: "+lkResult(r2, t2))
+		}
+	}
+	{
+		txn := f.Txn(true)
+		if tr, err := txn.Handle("PATCH", pat, nopHandler); err == nil {
+			rt, ct, tt := txn.Lookup(foxWriter{newRecWriter()}, newReq("PATCH", host, path))
+			if rt != tr || tt {
+				oracles = append(oracles, "a write transaction that registered "+hx(pat)+" does not route its instance before commit: "+lkResult(rt, tt))
+			}
+			if ct != nil {
+				ct.Close()
+			}
+			if r2, t2 := txn.Reverse("PATCH", host, path); r2 != tr || t2 {
+				oracles = append(oracles, "Txn.Reverse does not find the uncommitted route: "+lkResult(r2, t2))
+			}
+			if r0, _ := f.Reverse("PATCH", host, path); r0 != nil {
+				oracles = append(oracles, "the router routes an uncommitted route")
+			}
+		}
+		txn.Abort()
+	}
 	// the same instance again, several times on the same tree (pooled contexts and sub-contexts are reused now), and as a
 	// request whose URL carries it in RawPath (what a server hands over when the target contains escapes)
 	for k := 0; k < 4; k++ {
